@@ -161,6 +161,8 @@ func propC16(w *World, r *Report) {
 	// R5: the slot "before the current one" is a completed frame only if the ring position advances solely by Move
 	checkRingUsage(w, r, runs.fault, "R5")
 	checkRingMove(w, r, "R5")
+	// ... and only when a frame was accepted: a rejected (half-overwritten) slot must never become "the previous frame"
+	checkRingAdvancesOncePerFrame(w, r, runs, "R5", true, true)
 	n := 0
 	for fn := range w.AllFuncs {
 		if rv := fn.Signature.Recv(); rv == nil || !isPtrTo(rv.Type(), c.T) || len(fn.Blocks) == 0 {
